@@ -235,6 +235,43 @@ def native_geometry(rng, n):
     return bad
 
 
+def replay_adc(vals, oid):
+    bad = []
+    for v in (1, 2, 2.1, 2.4, "NPultra"):
+        s_, a_ = neuropixel.adc_shifts(version=v)
+        ws, wa = adc_spec(1 if v in (1, "NPultra") else 2, 384)
+        if np.shape(s_) != (384,) or not np.array_equal(s_, ws) or not np.array_equal(a_, wa):
+            d = np.flatnonzero(np.asarray(s_)[:384] != ws[:len(s_)]) if len(s_) else np.array([], int)
+            bad.append({"version": str(v), "channels_with_another_delay": d[:8].tolist(), "delay_returned": [float(x) for x in np.asarray(s_)[d[:3]]], "delay_expected": [float(x) for x in ws[d[:3]]]})
+    return {"failed": bool(bad), "cases": bad[:3]}
+
+
+@harness(PROPERTY, "adc_tables", functions=["neuropixel:adc_shifts"], replay=replay_adc,
+         clause="ADC groups / delays: channel ch is served by ADC 2*(ch // 2A) + ch % 2 at cycle (ch // 2) % A of C (A, C = 12, 13 for 1.0 / Ultra; 16, 16 for 2.x); complete: the function's whole domain is enumerated")
+def h_adc(H):
+    """closed computation over a finite domain (5 version values x nc in 1..384): decided by exhaustive evaluation of the real function against the
+    per-channel formula - complete, no solver involved; stated as obligations so that the properties that rest on the delay tables re-check it"""
+    S = H.session("adc_tables")
+
+    def body(it):
+        it.session.note_function(neuropixel.adc_shifts)
+        for v in (1, 2, 2.1, 2.4, "NPultra"):
+            ok, why = True, ""
+            for nc in range(1, 385):
+                try:
+                    s_, a_ = neuropixel.adc_shifts(version=v, nc=nc)
+                except Exception as e:
+                    ok, why = False, f"nc={nc}: raised {e!r}"[:160]
+                    break
+                ws, wa = adc_spec(1 if v in (1, "NPultra") else 2, nc)
+                if not (np.shape(s_) == (nc,) and np.shape(a_) == (nc,) and np.array_equal(s_, ws) and np.array_equal(a_, wa)):
+                    bad_ch = int(np.flatnonzero(np.asarray(s_)[:nc] != ws[:len(s_)])[0]) if np.shape(s_) == (nc,) and np.any(np.asarray(s_) != ws) else -1
+                    ok, why = False, f"nc={nc}: table differs from the per-channel formula (first channel with another delay: {bad_ch})"
+                    break
+            it.ctx.oblige(f"adc.table.{v}", z3.BoolVal(ok), "post", "sample_shift[ch] == ((ch // 2) % A) / C and adc[ch] == 2*(ch // 2A) + ch % 2 for every ch < nc, every nc in 1..384" + (": " + why if why else ""))
+    S.explore(body)
+
+
 @bounded(PROPERTY, "native_geometry_and_tables", bound="EXHAUSTIVE: adc_shifts for versions {1,2,2.4,NPultra} x nc in 1..384, dense_layout for versions {1,2,2.1,2.4,NPultra} x {1,4} shanks against a per-channel description, trace_header for 5 configurations; "
          "BOUNDED: 6 (thorough 60) random site selections per probe family in both encodings, sorted/unsorted, split shanks, derived twice; shipped new/old encoding pair; "
          "channel subset 10:105 (known finding)",
